@@ -1044,6 +1044,14 @@ func queueOf(w []string, feeOn bool) ([]tr, bool) {
 	return append(q, sg...), true
 }
 
+// stressFor: C02 also checks that the cacheable state values clone without sharing memory (clones.go).
+func stressFor(p string) func(bool, int64) []corr.Violation {
+	if p == "C02" {
+		return cloneIndependence
+	}
+	return nil
+}
+
 func main() {
 	prop := flag.String("prop", "C01", "which property's oracle and generator bias to use")
 	// corr.Main parses the flags; -prop must be known before, so peek at os.Args
@@ -1059,7 +1067,7 @@ func main() {
 	}
 	_ = prop
 	corr.Main(corr.Prop{
-		ID: p, Model: "LEDGER", Gen: gen(p), Impl: impl, Oracle: oracle(p), Serial: true,
+		ID: p, Model: "LEDGER", Gen: gen(p), Impl: impl, Oracle: oracle(p), Serial: true, Stress: stressFor(p),
 		Cases: func(th bool) int {
 			if th {
 				return 6000
